@@ -125,9 +125,77 @@ def build():
 
 
 def extra(defs, lab, ab, src, label_max, name_max, lim, LIM):
-    """widening items; filled in by later sections (kept separate so that the
-    core list above stays readable)"""
-    pass
+    """validators, Label::split_from, Chain::new"""
+    def nat(name, v): defs.append((name, "nat", "%d%%nat" % v))
+    def nn(name, v): defs.append((name, "N", "%d%%N" % v))
+    def boo(name, v): defs.append((name, "bool", "true" if v else "false"))
+    def ge(op): return op == ">="
+    # ---- Label::split_from
+    b = fn_body(lab, "split_from", after="impl Label")
+    m = one(r"let end = match head \{\s*0\.\.=" + NUM + r" => \(head as usize\) \+ " + NUM + r",\s*" + NUM + r"\.\.=" + NUM + r" => \{\s*return Err\(SplitLabelError::BadType\(\s*LabelTypeError::Extended\(head\),?\s*\)\);\s*\}\s*"
+            + NUM + r"\.\.=" + NUM + r" => \{\s*if slice\.len\(\) < " + NUM + r" \{\s*return Err\(SplitLabelError::ShortInput\);\s*\}", b, "split_from label type ranges")
+    g = [num(x) for x in m.groups()]
+    nn("split_normal_hi", g[0]); nat("split_end_add", g[1]); nn("split_ext_lo", g[2]); nn("split_ext_hi", g[3])
+    nn("split_ptr_lo", g[4]); nn("split_ptr_hi", g[5]); nat("split_ptr_min_len", g[6])
+    one(r"if slice\.len\(\) < end \{\s*return Err\(SplitLabelError::ShortInput\);\s*\}\s*let \(left, right\) = slice\.split_at\(end\);\s*let \(_, label_data\) = left\.split_at\(1\);", b, "split_from split")
+    # ---- Label::from_slice
+    b = fn_body(lab, "from_slice", after="impl Label")
+    m = one(r"^\s*if slice\.len\(\) (>=|>) " + LIM + r" \{\s*Err\(LongLabelError\(\(\)\)\)", b, "Label::from_slice")
+    boo("label_from_slice_ge", ge(m.group(1))); nat("label_from_slice_lim", lim(m.group(2)))
+    # ---- Name::check_slice
+    b = fn_body(ab, "check_slice", after="impl Name<[u8]>")
+    m = one(r"^\s*if slice\.len\(\) (>=|>) " + LIM + r" \{\s*return Err\(NameError\(DnameErrorEnum::LongName\)\);\s*\}\s*loop \{\s*let \(label, tail\) = Label::split_from\(slice\)\?;\s*"
+            r"if label\.is_root\(\) \{\s*if tail\.is_empty\(\) \{\s*break;\s*\} else \{\s*return Err\(NameError\(DnameErrorEnum::TrailingData\)\);\s*\}\s*\}\s*"
+            r"if tail\.is_empty\(\) \{\s*return Err\(NameError\(DnameErrorEnum::RelativeName\)\);\s*\}\s*slice = tail;\s*\}\s*Ok\(\(\)\)\s*$", b, "Name::check_slice")
+    boo("check_abs_ge", ge(m.group(1))); nat("check_abs_lim", lim(m.group(2)))
+    # ---- RelativeName::check_slice
+    rel = strip_comments(read("src/base/name/relative.rs"))
+    b = fn_body(rel, "check_slice", after="impl RelativeName<[u8]>")
+    m = one(r"^\s*if slice\.len\(\) (>=|>) " + LIM + r" \{\s*return Err\(RelativeNameError\(RelativeNameErrorEnum::LongName\)\);\s*\}\s*while !slice\.is_empty\(\) \{", b, "RelativeName::check_slice limit")
+    boo("check_rel_ge", ge(m.group(1))); nat("check_rel_lim", lim(m.group(2)))
+    one(r"if label\.is_root\(\) \{\s*return Err\(RelativeNameError\(\s*RelativeNameErrorEnum::AbsoluteName,?\s*\)\);\s*\}\s*slice = tail;\s*\}\s*Ok\(\(\)\)\s*$", b, "RelativeName::check_slice loop")
+    # ---- Chain::new
+    ch = strip_comments(read("src/base/name/chain.rs"))
+    b = fn_body(ch, "new", after="impl<L: ToLabelIter, R: ToLabelIter> Chain<L, R>")
+    m = one(r"^\s*if usize::from\(left\.compose_len\(\) \+ right\.compose_len\(\)\)\s*(>=|>) " + LIM + r"\s*\{\s*Err\(LongChainError\(\(\)\)\)\s*\} else \{\s*Ok\(Chain \{ left, right \}\)\s*\}\s*$", b, "Chain::new")
+    boo("chain_ge", ge(m.group(1))); nat("chain_lim", lim(m.group(2)))
+    text_items(defs, lab, src)
+
+
+def byte_lit(t):
+    t = t.strip()
+    m = re.fullmatch(r"b'(\\?.)'", t)
+    if not m:
+        raise GenError("not a byte literal: %r" % t)
+    c = m.group(1)
+    return ord(c[-1]) if len(c) == 2 else ord(c)
+
+
+def text_items(defs, lab, src):
+    """Display for Label (escape set), Symbol::from_chars / into_octet ranges,
+    push_symbol special symbols"""
+    def nn(name, v): defs.append((name, "N", "%d%%N" % v))
+    # ---- Display for Label
+    b = fn_body(lab, "fmt", after="impl fmt::Display for Label")
+    m = one(r"^\s*for ch in self\.iter\(\) \{\s*if ((?:ch == b'\\?.'\s*(?:\|\|)?\s*)+)\{\s*write!\(f, \"\\\\\{\}\", ch as char\)\?;\s*\} else if !\((0x[0-9A-Fa-f]+)\.\.(0x[0-9A-Fa-f]+)\)\.contains\(&ch\) \{\s*write!\(f, \"\\\\\{:03\}\", ch\)\?;\s*\} else \{\s*write!\(f, \"\{\}\", \(ch as char\)\)\?;\s*\}\s*\}\s*Ok\(\(\)\)\s*$", b, "Display for Label")
+    specials = [byte_lit(x) for x in re.findall(r"ch == (b'\\?.')", m.group(1))]
+    defs.append(("display_simple_escaped", "list N", "[" + "; ".join("%d%%N" % x for x in specials) + "]"))
+    nn("display_plain_lo", num(m.group(2))); nn("display_plain_hi_excl", num(m.group(3)))
+    # ---- Symbol::from_chars
+    sc = strip_comments(read("src/base/scan.rs"))
+    b = fn_body(sc, "from_chars", after="impl Symbol {")
+    m = one(r"let res = ch \+ ch2 \+ ch3;\s*if res > " + NUM + r" \{\s*return Err\(bad_escape\(\)\);", b, "decimal escape limit")
+    nn("sym_dec_max", num(m.group(1)))
+    m = one(r"if ch < (0x[0-9A-Fa-f]+) \|\| ch > (0x[0-9A-Fa-f]+) \{\s*Err\(bad_escape\(\)\)\s*\} else \{\s*Ok\(Some\(Symbol::SimpleEscape\(ch\)\)\)", b, "simple escape range")
+    nn("sym_simple_lo", num(m.group(1))); nn("sym_simple_hi", num(m.group(2)))
+    one(r"if ch != '\\\\' \{\s*return Ok\(Some\(Symbol::Char\(ch\)\)\);", b, "backslash test")
+    b = fn_body(sc, "into_octet", after="impl Symbol {")
+    m = one(r"Symbol::Char\(ch\) => \{\s*if ch\.is_ascii\(\) && ch >= '\\u\{([0-9A-Fa-f]+)\}' && ch <= '\\u\{([0-9A-Fa-f]+)\}' \{\s*Ok\(ch as u8\)", b, "into_octet range")
+    nn("octet_char_lo", int(m.group(1), 16)); nn("octet_char_hi", int(m.group(2), 16))
+    # ---- push_symbol
+    b = fn_body(src, "push_symbol", after="impl<Builder> NameBuilder<Builder>\nwhere")
+    one(r"^\s*if matches!\(sym, Symbol::Char\('\.'\)\) \{\s*if !self\.in_label\(\) \{\s*return Err\(PresentationErrorEnum::EmptyLabel\.into\(\)\);\s*\}\s*self\.end_label\(\);\s*Ok\(\(\)\)\s*\} else if matches!\(sym, Symbol::SimpleEscape\(b'\['\)\)\s*&& !self\.in_label\(\)\s*\{\s*Err\(LabelFromStrErrorEnum::BinaryLabel\.into\(\)\)\s*\} else \{\s*self\.push\(sym\.into_octet\(\)\?\)\.map_err\(Into::into\)\s*\}\s*$", b, "push_symbol")
+    nn("sym_dot", ord(".")); nn("sym_bracket", ord("["))
 
 
 if __name__ == "__main__":
